@@ -85,6 +85,8 @@ class Repo(object):
                 raise AnalysisError('cannot parse %s: %s' % (rel, e))
             self.modules[name] = m
             self.by_path[rel] = m
+        from .canon import canonicalise
+        self.canon_notes = canonicalise({rel: m.tree for rel, m in self.by_path.items()})
         for m in self.modules.values():
             m.repo = self
             self._index(m)
@@ -172,11 +174,25 @@ class Repo(object):
             raise AnalysisError('anchor module %s not found' % relpath)
         return m
 
-    def fn(self, relpath, qual):
+    def fn(self, relpath, qual, raw=False):
         m = self.mod(relpath)
         f = m.funcs.get(qual)
         if f is None:
             raise AnalysisError('anchor function %s:%s not found' % (relpath, qual))
+        if not raw and qual.endswith('.build') and '/index/' in relpath:
+            # an index build() that delegates pieces of its row loop to private helper methods is analysed with those
+            # helpers inlined (normalise.inline_private_methods); on a build() without such calls this is the identity
+            cache = self.__dict__.setdefault('_norm_build', {})
+            if (relpath, qual) not in cache:
+                cache[(relpath, qual)] = None
+                from .normalise import inline_private_methods
+                try:
+                    r2 = inline_private_methods(self, relpath, qual)
+                except AnalysisError:
+                    r2 = None
+                cache[(relpath, qual)] = r2.fn(relpath, qual, raw=True) if r2 is not None else None
+            if cache[(relpath, qual)] is not None:
+                return cache[(relpath, qual)]
         return f
 
     def has_fn(self, relpath, qual):
@@ -401,8 +417,30 @@ class Repo(object):
             out = None
         else:
             callee, kind, args, kws = r
-            out = (callee, kind, bind(callee, kind, args, kws))
+            out = (callee, kind, bind(callee, kind, self._splice_starred(f, args), kws))
         self._rcache[k] = (call, out)
+        return out
+
+    def _splice_starred(self, f, args):
+        """`g(a, *shared, b)` where `shared` is a local bound exactly once, at the top level of f, to a tuple/list
+        display: the elements are the arguments"""
+        if not any(isinstance(a, ast.Starred) for a in args):
+            return args
+        out = []
+        for a in args:
+            if isinstance(a, ast.Starred) and isinstance(a.value, ast.Name):
+                nm = a.value.id
+                stores = [n for n in ast.walk(f.node) if isinstance(n, ast.Name) and n.id == nm and isinstance(n.ctx, (ast.Store, ast.Del))]
+                top = [st for st in f.node.body if isinstance(st, ast.Assign) and len(st.targets) == 1
+                       and isinstance(st.targets[0], ast.Name) and st.targets[0].id == nm
+                       and isinstance(st.value, (ast.Tuple, ast.List)) and not any(isinstance(e, ast.Starred) for e in st.value.elts)]
+                mutated = any(isinstance(n, ast.Attribute) and isinstance(n.value, ast.Name) and n.value.id == nm
+                              and n.attr in ('append', 'extend', 'insert', 'pop', 'remove', 'clear', 'sort', 'reverse')
+                              for n in ast.walk(f.node))
+                if len(stores) == 1 and len(top) == 1 and not mutated and nm not in f.params:
+                    out.extend(top[0].value.elts)
+                    continue
+            out.append(a)
         return out
 
     def resolve_call_all(self, f, call):
